@@ -84,6 +84,8 @@ def known_items(it, limit=6):
         return None
     if it.ty in ('tuple', 'list') and it.elts is not None and 0 < len(it.elts) <= limit and not it.maybe_empty and it.elem is None:
         return list(it.elts)
+    if it.ty == 'range' and it.elts is not None and 0 < len(it.elts) <= limit:
+        return list(it.elts)  # range(3) and the like: a short run of known integers
     if it.ty == 'ndarray' and it.axes and it.axes[0] == 'xyz' and it.litconst is None and it.colvals is None and it.rows is None:
         # iterating over the three lattice directions: item k belongs to axis k
         base = it.only('geo', 'mono', 'store', 'dtype', 'taint', 'origin', 'deps', 'idx').w(ty='ndarray' if len(it.axes) > 1 else 'float',
